@@ -21,7 +21,7 @@ def one(ctx, data, meta=None, opts=pk.OPTS):
     comvalid = v.pop('<comments>', None) is True if isinstance(v, dict) else False
     srcvalid = v.pop('<sources>', None) is True if isinstance(v, dict) else False
     srcpkg = v.pop('<srcpackage>', None) is True if isinstance(v, dict) else False
-    if isinstance(v, dict): v.pop('<items>', None); v.pop('<groups>', None); v.pop('<partok>', None); v.pop('<notesok>', None); v.pop('<deepok>', None); v.pop('<deepcok>', None); v.pop('<post>', None); v.pop('<flat>', None); v.pop('<vfree>', None)
+    if isinstance(v, dict): v.pop('<items>', None); v.pop('<groups>', None); v.pop('<partok>', None); v.pop('<notesok>', None); v.pop('<deepok>', None); v.pop('<deepcok>', None); v.pop('<post>', None); v.pop('<flat>', None); v.pop('<vfree>', None); v.pop('<uniq>', None)
     ctx.count('validSrcPkg holds (hypothesis of C13_source_package_total: the package AS STORED)' if srcpkg else 'validSrcPkg false')
     ctx.count('source trees validT, goodTree, sameWb (hypotheses of C13_source_part_total)' if srcvalid else 'a source tree is not validT / goodTree / sameWb')
     ctx.count('commentsOK holds (hypothesis of C13_comments_total)' if comvalid else 'commentsOK false')
